@@ -261,7 +261,7 @@ pub fn replay(ctx: &Arc<Ctx>, v: &Value) {
 
 pub fn run(ctx: &Arc<Ctx>) {
     refmodels::selftest::run(&[ctx.tier.pick("sm4", "sm4long")]).unwrap_or_else(|e| ctx.machinery_error(format!("reference self-test failed: {}", e)));
-    ctx.set_rule("keys x blocks over {0^128, 1^128, 128 single-bit, 16 byte patterns, standard vector, seeded}; derived families forcing every S-box index in every byte lane of round 1 (data path) and of the first key-schedule round; all op sequences to depth 4 over {enc b0, enc b1, dec b0, dec b1, rebuild the object with the same key / a key differing in the last byte / in the first byte, a refused decrypt / encrypt of a 15-byte block, clone-use-drop the clone, continue with a clone and drop the original} (16105 histories per base key); every value of the first and of the last byte of key and block; keys crafted so that round key 0..3, 13..16 or 28..31 is 0 / all ones; pairs of ciphers built one after the other where the second key is derived from the first key's schedule or ciphertext (rk28..31 ^ FK, rk0..3 ^ FK, rk28..31, rk31..28, rk0..3, K ^ FK, E_K(0), E_K(K)); objects built on one thread and used (moved / Arc-shared) on fresh threads; key and block lengths 16 + 256k, 16 + 65536 refused. Oracle: independent SM4 with algebraically generated S-box.");
+    ctx.set_rule("keys x blocks over {0^128, 1^128, 128 single-bit, 16 byte patterns, standard vector, seeded}; derived families forcing every S-box index in every byte lane of round 1 (data path) and of the first key-schedule round; all op sequences to depth 4 over {enc b0, enc b1, dec b0, dec b1, rebuild the object with the same key / a key differing in the last byte / in the first byte, a refused decrypt / encrypt of a 15-byte block, clone-use-drop the clone, continue with a clone and drop the original} (16105 histories per base key); every value of the first and of the last byte of key and block; keys crafted so that round key 0..3, 13..16 or 28..31 is 0 / all ones; blocks and keys crafted so that the word a round produces equals one of the three words feeding the next round (data path under rk[0] / rk[31], key schedule rounds 0 and 17); pairs of ciphers built one after the other where the second key is derived from the first key's schedule or ciphertext (rk28..31 ^ FK, rk0..3 ^ FK, rk28..31, rk31..28, rk0..3, K ^ FK, E_K(0), E_K(K)); objects built on one thread and used (moved / Arc-shared) on fresh threads; key and block lengths 16 + 256k, 16 + 65536 refused. Oracle: independent SM4 with algebraically generated S-box.");
     let nseed = ctx.tier.pick(4, 64);
     let keys = blocks128(ctx.seed, "c02keys", nseed);
     let blocks = blocks128(ctx.seed, "c02blocks", nseed);
@@ -332,6 +332,60 @@ pub fn run(ctx: &Arc<Ctx>) {
         for link in ["rk28..31^FK", "rk0..3^FK", "rk28..31", "rk31..28", "rk0..3", "K1^FK", "E_K1(0)", "E_K1(K1)"] {
             cases.push(Case::KeyChain { key: k.into(), link: link.into() });
         }
+    }
+    // blocks and keys crafted so that a state / schedule word repeats: the word a round produces equals one of the three
+    // words that feed the next round (X4 in {X1, X2, X3} for encryption under rk[0], decryption under rk[31]; K4 in
+    // {K1, K2, K3} in the first key-schedule round): a memo keyed on those words reuses a value computed under another round key
+    {
+        let words = |w: [u32; 4]| -> [u8; 16] {
+            let mut o = [0u8; 16];
+            for (i, x) in w.iter().enumerate() {
+                o[4 * i..4 * i + 4].copy_from_slice(&x.to_be_bytes());
+            }
+            o
+        };
+        let mut count = 0;
+        for kh in ["0123456789abcdeffedcba9876543210", "fedcba98765432100123456789abcdef"] {
+            let key = h16(kh);
+            let rk = sm4::round_keys(&key);
+            for (x1, x2, x3) in [(0x11111111u32, 0x22222222u32, 0x44444444u32), (0xdeadbeef, 0x01234567, 0x89abcdef)] {
+                for which in 0..3 {
+                    let target = [x1, x2, x3][which];
+                    // encryption reads (X0, X1, X2, X3); decryption runs the same rounds with the round keys reversed
+                    for (r, tag) in [(rk[0], "enc"), (rk[31], "dec")] {
+                        let x0 = target ^ sm4::t_data(x1 ^ x2 ^ x3 ^ r);
+                        let _ = tag;
+                        cases.push(Case::Block { key: kh.into(), block: hex::encode(words([x0, x1, x2, x3])) });
+                        count += 1;
+                    }
+                }
+            }
+        }
+        // keys: K_i = MK_i ^ FK_i; first schedule round K4 = K0 ^ T'(K1 ^ K2 ^ K3 ^ CK0); choose K0 so that K4 = K1, K2 or K3
+        for (k1, k2, k3) in [(0x11111111u32, 0x22222222u32, 0x44444444u32), (0xdeadbeef, 0x01234567, 0x89abcdef)] {
+            for which in 0..3 {
+                let target = [k1, k2, k3][which];
+                let k0 = target ^ sm4::t_key(k1 ^ k2 ^ k3 ^ sm4::ck_const(0));
+                let mk = words([k0 ^ sm4::fk(0), k1 ^ sm4::fk(1), k2 ^ sm4::fk(2), k3 ^ sm4::fk(3)]);
+                assert_eq!(sm4::round_keys(&mk)[0], target, "crafted key: rk[0] is the chosen word");
+                for b in ["00112233445566778899aabbccddeeff", "00000000000000000000000000000000"] {
+                    cases.push(Case::Block { key: hex::encode(mk), block: b.into() });
+                    count += 1;
+                }
+            }
+        }
+        // ... and in a later schedule round: rk[17] = rk[14] (K21 = K18), by running the schedule backwards from a chosen window
+        for seedw in [0x0badc0deu32, 0x600dcafe] {
+            // window (K17, K18, K19, K20) = (rk13, rk14, rk15, rk16); K21 = K17 ^ T'(K18^K19^K20^CK17) must equal K18
+            let (k18, k19, k20) = (seedw, seedw.rotate_left(7) ^ 0x55aa55aa, seedw.rotate_left(19) ^ 0x33cc33cc);
+            let k17 = k18 ^ sm4::t_key(k18 ^ k19 ^ k20 ^ sm4::ck_const(17));
+            let mk = sm4::key_with_round_keys(13, [k17, k18, k19, k20]);
+            let rks = sm4::round_keys(&mk);
+            assert_eq!(rks[17], rks[14], "crafted key: rk[17] = rk[14]");
+            cases.push(Case::Block { key: hex::encode(mk), block: "00112233445566778899aabbccddeeff".into() });
+            count += 1;
+        }
+        ctx.cov("crafted_repeating_state_or_schedule_words", json!(count));
     }
     for len in [0usize, 15, 17, 32, 16 + 256, 16 + 512, 16 + 65536, 16 + 256 * 3 + 1] {
         cases.push(Case::AliasLength { len });
